@@ -162,8 +162,18 @@ fn gen(rng: &mut Rng, i: u64) -> String {
 		cur += match rng.below(3) { 0 => 0, 1 => 1, _ => rng.range(2, 9) as u32 }; // adjacency and gaps
 		let size = match rng.below(8) { 0 => 0, 1 => 1, _ => rng.range(2, 12) as u32 };
 		// unwind info: 4 + 2*count bytes in .rdata
-		let count = match rng.below(8) { 0 => 0, 1 => 255, _ => rng.below(7) as u32 };
-		let uw = if rng.chance(1, 16) {
+		let big = rng.chance(1, 10);
+		let count = if big { *rng.pick(&[128u32, 129, 130, 160, 200, 254, 255]) } else { match rng.below(8) { 0 => 0, 1 => 255, _ => rng.below(7) as u32 } };
+		let uw = if big {
+			// CountOfCodes >= 128 with fewer than 4 + 2*count bytes left in the section, but more than 4 + (2*count mod 256):
+			// a size computation narrower than usize accepts it and hands out a code array that runs past the section
+			let lower = (4 + (2 * count) % 256 + 3) & !3;
+			let upper = 4 + 2 * count;
+			// half of them flush against the end of the BUFFER (file: end of the last section's raw data; view: SizeOfImage),
+			// where the over-long array leaves the buffer (C01), the rest against the end of .rdata (C15: Bounds on a file)
+			let end = if rng.chance(1, 2) { RDATA_VA + RDATA_SZ } else if file { DATA_VA + DATA_SZ } else { SOI };
+			end - (lower + 4 * rng.below(((upper - lower) / 4) as u64) as u32)
+		} else if rng.chance(1, 16) {
 			RDATA_VA + RDATA_SZ - rng.range(1, 12) as u32 // close to the end of the section: Bounds
 		} else {
 			b.ralloc(4 + 2 * count.min(8), if rng.chance(1, 4) { 1 } else { 4 })
@@ -534,7 +544,7 @@ fn gen(rng: &mut Rng, i: u64) -> String {
 	if malformed && rng.chance(1, 8) {
 		len -= rng.range(1, 0x300) as usize; // truncated buffer
 	}
-	let img = Image { len, fill, hdr: spec.header_bytes(), pokes };
+	let img = Image { len, fill, hdr: scrambled_header(&spec, rng), pokes };
 	if b.rcur > RDATA_VA + RDATA_SZ || b.dcur > DATA_VA + DATA_SZ {
 		for x in xs.iter_mut() { *x = none(); } // something did not fit: no expectations
 	}
